@@ -49,6 +49,21 @@ Section All.
     rewrite (go_blocks_coherent A _ C). destruct (wf_parts h _ W) as (_ & Hu & Ho & _).
     rewrite (blocks_exact A _ h Hu Ho), F. reflexivity.
   Qed.
+
+  (* a new index derived from the grown object at any point of any history has the same tuples and, through its
+     own (possibly inherited) cache, the columns of exactly those tuples: no stale table *)
+  Theorem derive_no_stale_table : forall ops (st : ihgo A) h,
+    wf A eqb h (g_tree st) = true -> coherent A st -> forallb (op_dom A eqb h) ops = true ->
+    let d := M_derive A (fold_left (go_step A eqb) ops st) in
+    flatten (g_tree d) = flatten (g_tree st) ++ hist_rows A eqb st ops /\
+    coherent A d /\
+    go_blocks d = Ok (map (S_column (flatten (g_tree st) ++ hist_rows A eqb st ops)) (seq 0 (S h))).
+  Proof.
+    intros ops st h Hw Hc Hd d.
+    destruct (go_history A eqb eqb_spec ops st h Hw Hc Hd) as (W & F & C).
+    pose proof (history_blocks ops st h Hw Hc Hd) as B.
+    subst d. unfold M_derive, go_blocks, coherent in *. cbn [g_tree g_cache]. auto.
+  Qed.
 End All.
 
 
@@ -126,6 +141,8 @@ Lemma source_shape_ok :
   gen_go_append_rejects_non_last_label = true /\
   gen_locmap_open_slice_ends_bounded = true /\
   gen_contains_requires_key_end = true /\
+  gen_ih_init_hands_over_blocks_only_if_fresh = true /\
+  gen_index_loc_refreshes_cache_for_every_key = true /\
   gen_go_append_sets_recache = true /\
   gen_go_extend_sets_recache = true.
 Proof. repeat split; reflexivity. Qed.
